@@ -106,7 +106,13 @@ pub fn build(
     visibility: Visibility,
     first_base: Option<&Region>,
     vftable_functions: Option<Vec<Function>>,
-) -> anyhow::Result<(Option<TypeVftable>, Option<Region>)> {
+) -> anyhow::Result<Option<(Option<TypeVftable>, Option<Region>)>> {
+    // Whether and where the vftable pointer lives depends on the first base, so it has to be
+    // resolved. The vftable type itself doesn't depend on it and is generated regardless:
+    // the base may well be waiting for it.
+    let first_base_is_unresolved =
+        |semantic: &SemanticState| first_base.is_some_and(|b| b.size(&semantic.type_registry).is_none());
+
     if let Some(vftable_functions) = vftable_functions {
         // There are functions defined for this vftable.
         let vftable_item = build_type(
@@ -117,7 +123,7 @@ pub fn build(
         );
 
         let Some(vftable_type) = vftable_item else {
-            return Ok((None, None));
+            return Ok(Some((None, None)));
         };
 
         let vftable_path = vftable_type.path.clone();
@@ -125,6 +131,9 @@ pub fn build(
         #[cfg(pyxis_verif)]
         crate::verif::probe("vftable:item_inserted");
         semantic.add_item(vftable_type)?;
+        if first_base_is_unresolved(semantic) {
+            return Ok(None);
+        }
 
         if let Some((base_name, base_vftable)) = get_optional_region_name_and_vftable(
             &semantic.type_registry,
@@ -159,14 +168,14 @@ pub fn build(
                 }
             }
 
-            Ok((
+            Ok(Some((
                 Some(TypeVftable {
                     functions: vftable_functions,
                     base_field: Some(base_name),
                     type_: vftable_pointer_type,
                 }),
                 None,
-            ))
+            )))
         } else {
             // There is no base class with a vftable. Let's create a new field.
             let region = Region {
@@ -177,30 +186,32 @@ pub fn build(
                 is_base: false,
             };
 
-            Ok((
+            Ok(Some((
                 Some(TypeVftable {
                     functions: vftable_functions,
                     base_field: None,
                     type_: vftable_pointer_type,
                 }),
                 Some(region),
-            ))
+            )))
         }
+    } else if first_base_is_unresolved(semantic) {
+        Ok(None)
     } else if let Some((base_name, base_vftable)) =
         get_optional_region_name_and_vftable(&semantic.type_registry, resolvee_path, first_base)?
     {
         // There are no functions defined for this vftable, but there is a base class with a vftable.
         // Let's use its field.
-        Ok((
+        Ok(Some((
             Some(TypeVftable {
                 functions: base_vftable.functions.clone(),
                 base_field: Some(base_name),
                 type_: base_vftable.type_.clone(),
             }),
             None,
-        ))
+        )))
     } else {
-        Ok((None, None))
+        Ok(Some((None, None)))
     }
 }
 
